@@ -85,6 +85,8 @@ FunctorManager::Entry& FunctorManager::createOrReplace(const std::string& name, 
       /* back up current declaration */
       _backed.swap(e.functor);
       _backed_id = id;
+      /* the cached contexts were made for the body being replaced */
+      e.clearCache();
       if (_unit_open)
         _unit_changes.push_back(_backed);
       return e;
